@@ -49,8 +49,8 @@ Section Uniquify.
 
   (** when Uniquify stops on a live translation, the candidate in front has a
       text that no cache entry has *)
-  Lemma uniquify_post fuel : forall t e c,
-    let r := uniquify nx fuel t e c in
+  Lemma uniquify_post fuel yl : forall t e c,
+    let r := uniquify nx fuel yl t e c in
     snd (fst r) = false -> forall p, peek (snd (fst (fst r))) = Some p -> find_text (c_text p) (snd r) = None.
   Proof.
     induction fuel as [|f IH]; intros t e c; cbn [uniquify]; [discriminate|].
@@ -58,52 +58,55 @@ Section Uniquify.
     destruct (peek t) as [p0|] eqn:Ep; [|cbn; congruence].
     destruct (find_text (c_text p0) c) as [k|] eqn:Ef.
     - destruct (nx t (rewrite_at k p0 c)) as [[r0 t'] c2]. apply IH.
-    - cbn. intros _ p Hp. congruence.
+    - destruct (has_text yl (c_text p0)).
+      + destruct (nx t c) as [[r0 t'] c2]. apply IH.
+      + cbn. intros _ p Hp. congruence.
   Qed.
 End Uniquify.
 
 (** the invariant of a menu whose outermost translation is the uniquifier *)
 Definition uniq_inv (t : tr) (c : cache) : Prop :=
-  exists t0 e, t = TUniquified t0 e /\ NoDup (texts c) /\
+  exists t0 e yl, t = TUniquified t0 e yl /\ NoDup (texts c) /\
     (e = false -> forall p, peek t0 = Some p -> ~ In (c_text p) (texts c)).
 
 Lemma mk_uniquified_inv d t c :
   NoDup (texts c) -> uniq_inv (fst (mk_uniquified d t c)) (snd (mk_uniquified d t c)).
 Proof.
   intro Hn. unfold mk_uniquified.
-  pose proof (uniquify_post (next_d d) (S (rem t)) t (exhausted t) c) as P.
-  pose proof (uniquify_shown (next_d d) (next_d_shown d) (S (rem t)) t (exhausted t) c) as S1.
-  destruct (uniquify (next_d d) (S (rem t)) t (exhausted t) c) as [[[r t'] e'] c']. cbn [fst snd] in *.
-  exists t', e'. split; [reflexivity|]. rewrite (shown_texts _ _ S1). split; [exact Hn|].
+  pose proof (uniquify_post (next_d d) (S (rem t)) [] t (exhausted t) c) as P.
+  pose proof (uniquify_shown (next_d d) (next_d_shown d) (S (rem t)) [] t (exhausted t) c) as S1.
+  destruct (uniquify (next_d d) (S (rem t)) [] t (exhausted t) c) as [[[r t'] e'] c']. cbn [fst snd] in *.
+  exists t', e', []. split; [reflexivity|]. rewrite (shown_texts _ _ S1). split; [exact Hn|].
   intros He p Hp. rewrite <- (shown_texts _ _ S1). apply find_text_none. now apply P.
 Qed.
 
-Lemma next_uniq_inv t0 c1 :
+Lemma next_uniq_inv t0 yl c1 :
   NoDup (texts c1) ->
-  uniq_inv (r_tr (next (TUniquified t0 false) c1)) (r_cache (next (TUniquified t0 false) c1)).
+  uniq_inv (r_tr (next (TUniquified t0 false yl) c1)) (r_cache (next (TUniquified t0 false yl) c1)).
 Proof.
   intro Hn. unfold next. cbn [height next_d].
   pose proof (next_d_shown (height t0) t0 c1) as S0.
   destruct (next_d (height t0) t0 c1) as [[r0 t0'] c'']. cbn [r_cache snd] in S0.
-  pose proof (uniquify_post (next_d (height t0)) (S (rem t0')) t0' (exhausted t0') c'') as P.
-  pose proof (uniquify_shown (next_d (height t0)) (next_d_shown _) (S (rem t0')) t0' (exhausted t0') c'') as S1.
-  destruct (uniquify (next_d (height t0)) (S (rem t0')) t0' (exhausted t0') c'') as [[[r1 t1] e1] c1'].
+  set (yl' := match peek t0 with Some p => c_text p :: yl | None => yl end).
+  pose proof (uniquify_post (next_d (height t0)) (S (rem t0')) yl' t0' (exhausted t0') c'') as P.
+  pose proof (uniquify_shown (next_d (height t0)) (next_d_shown _) (S (rem t0')) yl' t0' (exhausted t0') c'') as S1.
+  destruct (uniquify (next_d (height t0)) (S (rem t0')) yl' t0' (exhausted t0') c'') as [[[r1 t1] e1] c1'].
   cbn [r_tr r_cache fst snd] in *.
   assert (E : texts c1' = texts c1) by (apply shown_texts; congruence).
-  exists t1, e1. split; [reflexivity|]. rewrite E. split; [exact Hn|].
+  exists t1, e1, yl'. split; [reflexivity|]. rewrite E. split; [exact Hn|].
   intros He p Hp. rewrite <- E. apply find_text_none. now apply P.
 Qed.
 
 Lemma drain_uniq : forall f t c, uniq_inv t c -> NoDup (texts (snd (drain f t c))).
 Proof.
-  induction f as [|f IH]; intros t c [t0 [e [-> [Hn Hp]]]]; [exact Hn|].
+  induction f as [|f IH]; intros t c [t0 [e [yl [-> [Hn Hp]]]]]; [exact Hn|].
   cbn [drain exhausted]. destruct e; [exact Hn|]. cbn [peek].
   set (c1 := match peek t0 with Some p => c ++ [p] | None => c end).
   assert (Hn1 : NoDup (texts c1)).
   { subst c1. destruct (peek t0) as [p|] eqn:E; [|exact Hn].
     unfold texts. rewrite map_app. apply NoDup_snoc; [exact Hn|]. now apply Hp. }
-  pose proof (next_uniq_inv t0 c1 Hn1) as I.
-  destruct (next (TUniquified t0 false) c1) as [[r0 t'] c2]. cbn [r_tr r_cache fst snd] in I.
+  pose proof (next_uniq_inv t0 yl c1 Hn1) as I.
+  destruct (next (TUniquified t0 false yl) c1) as [[r0 t'] c2]. cbn [r_tr r_cache fst snd] in I.
   now apply IH.
 Qed.
 
@@ -128,7 +131,7 @@ Proof.
       end in mkMenu t c)) = map shown (m_cache m)).
   { destruct f.
     - unfold mk_uniquified.
-      pose proof (uniquify_shown (next_d d) (next_d_shown d) (S (rem (m_res m))) (m_res m) (exhausted (m_res m)) (m_cache m)) as S1.
+      pose proof (uniquify_shown (next_d d) (next_d_shown d) (S (rem (m_res m))) [] (m_res m) (exhausted (m_res m)) (m_cache m)) as S1.
       destruct (uniquify _ _ _ _ _) as [[[r t'] e'] c']. exact S1.
     - unfold mk_single_char. destruct (exhausted (m_res m)); [reflexivity|].
       pose proof (rearrange_shown (next_d d) (next_d_shown d) (S (rem (m_res m))) (m_res m) [] [] (m_cache m)) as S1.
@@ -157,24 +160,236 @@ Proof.
   apply uniq_no_dup_menu. fold (build_menu ts fs). rewrite build_menu_cache. constructor.
 Qed.
 
-(** ---- refutation for the other filter order ---- *)
+(** ---- the uniquifier followed by the prefetching single-char filter
+        (the order of data/minimal/cangjie5.schema.yaml) ----
+    The prefetch drains the uniquified stream while the menu's cache is still
+    empty; the [yielded] set of the uniquifier is what keeps the prefetched
+    run free of duplicates. *)
+From Coq Require Import Permutation.
+
+Lemma has_text_in l x : has_text l x = true <-> In x l.
+Proof.
+  unfold has_text. rewrite existsb_exists. split.
+  - intros [y [Hy E]]. apply text_eqb_eq in E. now subst.
+  - intro H. exists x. split; [exact H|]. now apply text_eqb_eq.
+Qed.
+
+Lemma has_text_notin l x : has_text l x = false <-> ~ In x l.
+Proof.
+  split.
+  - intros H G. apply has_text_in in G. congruence.
+  - intro H. destruct (has_text l x) eqn:E; [|reflexivity]. apply has_text_in in E. contradiction.
+Qed.
+
+Section Uniquify2.
+  Variable nx : tr -> cache -> bool * tr * cache.
+
+  Lemma uniquify_post_yl fuel yl : forall t e c,
+    let r := uniquify nx fuel yl t e c in
+    snd (fst r) = false -> forall p, peek (snd (fst (fst r))) = Some p -> ~ In (c_text p) yl.
+  Proof.
+    induction fuel as [|f IH]; intros t e c; cbn [uniquify]; [discriminate|].
+    destruct e; [discriminate|].
+    destruct (peek t) as [p0|] eqn:Ep; [|cbn; congruence].
+    destruct (find_text (c_text p0) c) as [k|] eqn:Ef.
+    - destruct (nx t (rewrite_at k p0 c)) as [[r0 t'] c2]. apply IH.
+    - destruct (has_text yl (c_text p0)) eqn:Eh.
+      + destruct (nx t c) as [[r0 t'] c2]. apply IH.
+      + cbn. intros _ p Hp. assert (p = p0) by congruence. subst. now apply has_text_notin.
+  Qed.
+End Uniquify2.
+
+(** what holds of a uniquified translation [TUniquified t0 e yl] against a cache [c] *)
+Definition uq_front (t0 : tr) (e : bool) (yl : list text) (c : cache) : Prop :=
+  e = false -> forall p, peek t0 = Some p -> ~ In (c_text p) (texts c) /\ ~ In (c_text p) yl.
+
+Lemma uq_next d t0 yl c :
+  let yl' := match peek t0 with Some p => c_text p :: yl | None => yl end in
+  exists t1 e1, r_tr (next_d (S d) (TUniquified t0 false yl) c) = TUniquified t1 e1 yl' /\
+    texts (r_cache (next_d (S d) (TUniquified t0 false yl) c)) = texts c /\
+    uq_front t1 e1 yl' (r_cache (next_d (S d) (TUniquified t0 false yl) c)).
+Proof.
+  cbn zeta. cbn [next_d].
+  set (yl' := match peek t0 with Some p => c_text p :: yl | None => yl end).
+  pose proof (next_d_shown d t0 c) as S0.
+  destruct (next_d d t0 c) as [[r0 t0'] c'']. cbn [r_cache snd] in S0.
+  pose proof (uniquify_post (next_d d) (S (rem t0')) yl' t0' (exhausted t0') c'') as P.
+  pose proof (uniquify_post_yl (next_d d) (S (rem t0')) yl' t0' (exhausted t0') c'') as P2.
+  pose proof (uniquify_shown (next_d d) (next_d_shown d) (S (rem t0')) yl' t0' (exhausted t0') c'') as S1.
+  destruct (uniquify (next_d d) (S (rem t0')) yl' t0' (exhausted t0') c'') as [[[r1 t1] e1] c1'].
+  cbn [r_tr r_cache fst snd] in *.
+  exists t1, e1. split; [reflexivity|]. split; [apply shown_texts; congruence|].
+  intros He p Hp. split; [apply find_text_none; now apply P|now apply P2].
+Qed.
+
+Lemma mk_uniquified_front d t c :
+  exists t1 e1, fst (mk_uniquified d t c) = TUniquified t1 e1 [] /\
+    texts (snd (mk_uniquified d t c)) = texts c /\ uq_front t1 e1 [] (snd (mk_uniquified d t c)).
+Proof.
+  unfold mk_uniquified.
+  pose proof (uniquify_post (next_d d) (S (rem t)) [] t (exhausted t) c) as P.
+  pose proof (uniquify_shown (next_d d) (next_d_shown d) (S (rem t)) [] t (exhausted t) c) as S1.
+  destruct (uniquify (next_d d) (S (rem t)) [] t (exhausted t) c) as [[[r t'] e'] c']. cbn [fst snd] in *.
+  exists t', e'. split; [reflexivity|]. split; [now apply shown_texts|].
+  intros He p Hp. split; [apply find_text_none; now apply P|intros []].
+Qed.
+
+(** invariant of the menu whose outermost translation is the single-char
+    prefetch over the uniquifier *)
+Definition us_inv (t : tr) (c : cache) : Prop :=
+  exists t0 e yl q ex, t = TPrefetch (TUniquified t0 e yl) q ex /\
+    NoDup (texts c ++ texts q) /\ (forall x, In x (texts q) -> In x yl) /\ uq_front t0 e yl c.
+
+Lemma NoDup_insert {A} (a t b : list A) x :
+  NoDup (a ++ t ++ b) -> ~ In x (a ++ t ++ b) -> NoDup (a ++ (t ++ [x]) ++ b).
+Proof.
+  intros Hn Hx. apply (Permutation_NoDup (l := x :: a ++ t ++ b)); [|now constructor].
+  rewrite <- !app_assoc. cbn [app]. rewrite (app_assoc a t (x :: b)), (app_assoc a t b).
+  apply Permutation_middle.
+Qed.
+
+Lemma rearrange_us d fuel : forall t0 e yl top bottom c,
+  NoDup (texts c ++ texts top ++ texts bottom) ->
+  (forall x, In x (texts top ++ texts bottom) -> In x yl) ->
+  uq_front t0 e yl c ->
+  let r := rearrange (next_d (S d)) fuel (TUniquified t0 e yl) top bottom c in
+  exists t1 e1 yl1, fst (fst r) = TUniquified t1 e1 yl1 /\
+    NoDup (texts (snd r) ++ texts (snd (fst r))) /\ (forall x, In x (texts (snd (fst r))) -> In x yl1) /\
+    uq_front t1 e1 yl1 (snd r).
+Proof.
+  induction fuel as [|f IH]; intros t0 e yl top bottom c Hn Hq Hf; cbn [rearrange].
+  - cbn [fst snd]. exists t0, e, yl. unfold texts in *. rewrite map_app. split; [reflexivity|]. split; [exact Hn|]. split; [exact Hq|exact Hf].
+  - assert (Done : exists t1 e1 yl1, TUniquified t0 e yl = TUniquified t1 e1 yl1 /\
+        NoDup (texts c ++ texts (top ++ bottom)) /\ (forall x, In x (texts (top ++ bottom)) -> In x yl1) /\
+        uq_front t1 e1 yl1 c).
+    { exists t0, e, yl. unfold texts in *. rewrite map_app. split; [reflexivity|]. split; [exact Hn|]. split; [exact Hq|exact Hf]. }
+    cbn [exhausted]. destruct e; [exact Done|]. cbn [peek].
+    destruct (peek t0) as [p|] eqn:Ep; [|exact Done].
+    destruct (negb (is_table_phrase p)); [exact Done|]. clear Done.
+    destruct (Hf eq_refl p Ep) as [Hpc Hpy].
+    pose proof (uq_next d t0 yl c) as U. cbn zeta in U. rewrite Ep in U.
+    destruct U as [t1 [e1 [E1 [E2 E3]]]].
+    destruct (next_d (S d) (TUniquified t0 false yl) c) as [[r0 t'] c']. cbn [r_tr r_cache fst snd] in *. subst t'.
+    assert (Hpq : ~ In (c_text p) (texts c ++ texts top ++ texts bottom)).
+    { rewrite in_app_iff. intros [G|G]; [contradiction|]. apply Hpy. now apply Hq. }
+    destruct (is_single_char p).
+    + apply IH.
+      * rewrite E2. unfold texts in *. rewrite map_app. cbn [map]. now apply NoDup_insert.
+      * intros x Hx. unfold texts in Hx. rewrite map_app in Hx. cbn [map] in Hx.
+        rewrite !in_app_iff in Hx. cbn [In] in Hx.
+        destruct Hx as [[Hx|[Hx|[]]]|Hx]; [right; apply Hq; rewrite in_app_iff; now left|left; now subst|
+                                            right; apply Hq; rewrite in_app_iff; now right].
+      * exact E3.
+    + apply IH.
+      * rewrite E2. unfold texts in *. rewrite map_app. cbn [map].
+        rewrite (app_assoc (map c_text c)), (app_assoc (map c_text c ++ map c_text top)).
+        apply NoDup_snoc; rewrite <- !app_assoc; assumption.
+      * intros x Hx. unfold texts in Hx. rewrite map_app in Hx. cbn [map] in Hx.
+        rewrite !in_app_iff in Hx. cbn [In] in Hx.
+        destruct Hx as [Hx|[Hx|[Hx|[]]]]; [right; apply Hq; rewrite in_app_iff; now left|
+                                            right; apply Hq; rewrite in_app_iff; now right|left; now subst].
+      * exact E3.
+Qed.
+
+Lemma add_uniq_form m : m_cache m = [] ->
+  exists t1 e1, add_filter m FUniquifier = mkMenu (TUniquified t1 e1 []) [] /\ uq_front t1 e1 [] [].
+Proof.
+  intro Hc. unfold add_filter.
+  destruct (mk_uniquified_front (height (m_res m)) (m_res m) (m_cache m)) as [t1 [e1 [E1 [E2 E3]]]].
+  destruct (mk_uniquified (height (m_res m)) (m_res m) (m_cache m)) as [tu cu]. cbn [fst snd] in *. subst tu.
+  rewrite Hc in E2. assert (cu = []) by (destruct cu; [reflexivity|discriminate]). subst cu.
+  exists t1, e1. split; [reflexivity|exact E3].
+Qed.
+
+Lemma mk_single_char_us m :
+  m_cache m = [] ->
+  let m2 := add_filter (add_filter m FUniquifier) FSingleChar in us_inv (m_res m2) (m_cache m2).
+Proof.
+  intro Hc. cbn zeta. destruct (add_uniq_form m Hc) as [t1 [e1 [-> E3]]].
+  unfold add_filter, mk_single_char. cbn [m_res m_cache exhausted height].
+  destruct e1.
+  - cbn [m_res m_cache]. exists t1, true, [], [], true. split; [reflexivity|]. split; [constructor|]. split; [intros x []|exact E3].
+  - pose proof (rearrange_us (height t1) (S (rem (TUniquified t1 false []))) t1 false [] [] [] []) as R.
+    cbn zeta in R. destruct R as [t2 [e2 [yl2 [R1 [R2 [R3 R4]]]]]]; [constructor|intros x []|exact E3|].
+    destruct (rearrange (next_d (S (height t1))) (S (rem (TUniquified t1 false []))) (TUniquified t1 false []) [] [] [])
+      as [[t' q] c']. cbn [fst snd m_res m_cache] in *. subst t'.
+    exists t2, e2, yl2, q, false. split; [reflexivity|]. split; [exact R2|]. split; [exact R3|exact R4].
+Qed.
+
+Lemma next_prefetch_nil d t c :
+  next_d (S d) (TPrefetch t [] false) c =
+  (true, TPrefetch (r_tr (next_d d t c)) [] (exhausted (r_tr (next_d d t c))), r_cache (next_d d t c)).
+Proof. cbn [next_d]. destruct (next_d d t c) as [[r0 t'] c']. reflexivity. Qed.
+
+Lemma next_us t c :
+  us_inv t c -> exhausted t = false ->
+  let c1 := match peek t with Some p => c ++ [p] | None => c end in
+  us_inv (r_tr (next t c1)) (r_cache (next t c1)).
+Proof.
+  intros [t0 [e [yl [q [ex [-> [Hn [Hq Hf]]]]]]]] Hex. cbn [exhausted] in Hex. subst ex.
+  cbn zeta. cbn [peek]. unfold next. cbn [height].
+  destruct q as [|p q'].
+  - (* nothing prefetched left: the candidate comes from the uniquifier itself *)
+    destruct e.
+    + cbn [next_d r_tr r_cache fst snd is_nil andb exhausted].
+      exists t0, true, yl, [], true. split; [reflexivity|]. split; [exact Hn|]. split; [intros x []|discriminate].
+    + cbn [peek]. rewrite next_prefetch_nil. cbn [r_tr r_cache fst snd].
+      set (c1 := match peek t0 with Some p => c ++ [p] | None => c end).
+      pose proof (uq_next (height t0) t0 yl c1) as U. cbn zeta in U.
+      destruct U as [t1 [e1 [E1 [E2 E3]]]].
+      destruct (next_d (S (height t0)) (TUniquified t0 false yl) c1) as [[r0 t'] c']. cbn [r_tr r_cache fst snd] in *. subst t'.
+      eexists t1, e1, _, [], _. split; [reflexivity|]. split; [|split; [intros x []|exact E3]].
+      cbn [texts map]. rewrite app_nil_r, E2. cbn [texts map] in Hn. rewrite app_nil_r in Hn. subst c1.
+      destruct (peek t0) as [p|] eqn:Ep; [|exact Hn].
+      unfold texts. rewrite map_app. cbn [map]. apply NoDup_snoc; [exact Hn|]. now apply (Hf eq_refl p Ep).
+  - cbn [next_d r_tr r_cache fst snd].
+    eexists t0, e, yl, q', _. split; [reflexivity|]. split; [|split].
+    + unfold texts in *. rewrite map_app. cbn [map] in *. rewrite <- app_assoc. exact Hn.
+    + intros x Hx. apply Hq. cbn [texts map In]. now right.
+    + intros He p0 Hp0. destruct (Hf He p0 Hp0) as [F1 F2]. split; [|exact F2].
+      unfold texts. rewrite map_app, in_app_iff. cbn [map In]. intros [G|[G|[]]]; [contradiction|].
+      apply F2. apply Hq. cbn [texts map In]. left. exact G.
+Qed.
+
+Lemma NoDup_app_l {A} (a b : list A) : NoDup (a ++ b) -> NoDup a.
+Proof.
+  induction a as [|x a IH]; intro H; [constructor|].
+  cbn [app] in H. inversion H as [|? ? Hx Hr]; subst. constructor; [|now apply IH].
+  intro G. apply Hx. rewrite in_app_iff. now left.
+Qed.
+
+Lemma drain_us : forall f t c, us_inv t c -> NoDup (texts (snd (drain f t c))).
+Proof.
+  induction f as [|f IH]; intros t c I.
+  - cbn. destruct I as [t0 [e [yl [q [ex [_ [Hn _]]]]]]]. now apply NoDup_app_l in Hn.
+  - cbn [drain]. destruct (exhausted t) eqn:E.
+    + cbn. destruct I as [t0 [e [yl [q [ex [_ [Hn _]]]]]]]. now apply NoDup_app_l in Hn.
+    + pose proof (next_us t c I E) as I2. cbn zeta in I2. cbn zeta.
+      match goal with |- context [next t ?x] => destruct (next t x) as [[r0 t'] c2] end.
+      cbn [r_tr r_cache fst snd] in I2. now apply IH.
+Qed.
+
+(** T5b: the uniquifier followed by the single-char filter (cangjie5's order) *)
+Theorem uniq_single_no_dup ts fs :
+  NoDup (texts (full_list (build_menu ts (fs ++ [FUniquifier; FSingleChar])))).
+Proof.
+  unfold build_menu. rewrite fold_left_app. cbn [fold_left]. fold (build_menu ts fs).
+  pose proof (mk_single_char_us (build_menu ts fs) (build_menu_cache ts fs)) as I. cbn zeta in I.
+  unfold full_list. now apply drain_us.
+Qed.
+
+(** ---- examples ---- *)
 
 Definition dup_a : cand := mkCand [0x4E00%N] 1 0 0 1 3 0.
 Definition dup_b : cand := mkCand [0x4E00%N] 2 0 0 1 2 0.
 Definition dup_witness : list tr := [mk_fifo [dup_a; dup_b]].
 
-(** the uniquifier followed by the single-char filter: the prefetch happens
-    while the menu's cache is still empty, so nothing is merged *)
-Lemma uniq_then_prefetch_dup :
-  texts (full_list (build_menu dup_witness [FUniquifier; FSingleChar])) = [[0x4E00%N]; [0x4E00%N]].
+(** the stream that showed the same text twice before the uniquifier kept
+    track of what it had yielded: the duplicate met during the prefetch is dropped *)
+Lemma uniq_then_prefetch_example :
+  map (fun c => (c_text c, c_comment c, c_uniq c)) (full_list (build_menu dup_witness [FUniquifier; FSingleChar]))
+  = [([0x4E00%N], 1%N, 0)].
 Proof. vm_compute. reflexivity. Qed.
-
-Lemma uniq_not_last_refuted :
-  exists ts, ~ NoDup (texts (full_list (build_menu ts [FUniquifier; FSingleChar]))).
-Proof.
-  exists dup_witness. rewrite uniq_then_prefetch_dup. intro H.
-  inversion H as [|? ? Hin _]; subst. apply Hin. now left.
-Qed.
 
 (** non-vacuity: with the uniquifier last the same stream is merged into one entry *)
 Lemma uniq_last_example :
